@@ -36,3 +36,22 @@ package remember
 //@   ensures[C18] no_panic: !panics
 //@   ensures[C18] storage_error_outcome: each Store.UseRememberToken(_, _) -> ?ue => (ue != nil && ue != ErrTokenNotFound) ==>
 //@       (result != nil && !emits Sess.Put(_, _) && !emits Cook.Put(_, _))
+//@
+//@ func (*Remember).RememberAfterAuth
+//@   property C07 C18
+//@   -- a cookie is only issued when the submitted values ask for it, and it is the
+//@   -- token whose hash was stored for the current user
+//@   ensures[C07] only_when_asked: each Cook.Put(_, _) =>
+//@       ctxvalues(req) != nil && val(ctxvalues(req), "GetShouldRemember", bool)
+//@   ensures[C07] cookie_is_stored_token: each Cook.Put(?k, ?tok) => k == "rm" &&
+//@       before Store.AddRememberToken(?p, ?h) -> ?e :: e == nil && h == b64std(sha512(b64url_dec(tok)))
+//@   ensures[C07] never_touches_session: !emits Sess.Put(_, _) && !emits Sess.Del(_)
+//@   ensures[C18] add_error_outcome: each Store.AddRememberToken(_, _) -> ?e => e != nil ==> (result.1 != nil && !emits Cook.Put(_, _))
+//@
+//@ func Middleware#1#1
+//@   property C07
+//@   -- the middleware only consults the cookie when nobody is logged in, and always
+//@   -- runs the wrapped handler
+//@   ensures mw_only_anonymous: each Store.UseRememberToken(_, _) =>
+//@       ite(ctxpid(r) != nil, asstring(ctxpid(r)) == "", sess(r, "uid") == "")
+//@   ensures mw_next_runs: !panics ==> emits Next.ServeHTTP(_, _, _)
